@@ -192,6 +192,11 @@ def check(ctx):
                     nm = str(v[1]).partition("@loop")
                     if nm[2] == str(lp.a.get("loop")) and pre.get(nm[0]) == ("const", 1):
                         scan_ok = True
+                    # for v in range(1, n): the scan variable is the loop's own, its first value the first argument of range
+                    it = lp.a.get("iter")
+                    if nm[2] == str(lp.a.get("loop")) and lp.a.get("lkind") == "for" and lp.a.get("target") == nm[0] and isinstance(it, tuple) \
+                            and it[:2] == ("call", ("builtin", "range")) and len(it[2]) >= 2 and it[2][0] == ("const", 1):
+                        scan_ok = True
             ctx.ob("F3", "%s width scan starts at index 1" % cq, scan_ok, where=where(scan_loops[0]) if scan_loops else w0, function=framer_q,
                    construct="%s/scan-start" % framer_q, msg="the scan of the remaining-length field does not start at byte 1 of the carry")
             src = call[0].a["args"][0] if call and call[0].a["args"] else None
